@@ -61,6 +61,11 @@ impl Block for Midpointer {
             warn!("Midpointer got NaN");
         } else {
             let (mut a, mut b): (Vec<Float>, Vec<Float>) = v.iter().partition(|&t| *t > mean);
+            if a.is_empty() || b.is_empty() {
+                // Constant burst (or all infinite): there is no midpoint.
+                warn!("Midpointer got a burst without two levels, dropping it");
+                return Ok(BlockRet::Again);
+            }
             a.sort_by(|a, b| a.partial_cmp(b).unwrap());
             b.sort_by(|a, b| a.partial_cmp(b).unwrap());
             let high = a[a.len() / 2];
